@@ -43,22 +43,29 @@ EdgeLess(e, f) == Lo(e) < Lo(f) \/ (Lo(e) = Lo(f) /\ Hi(e) < Hi(f))
 EdgeSeq(es, lab) == LET s == SetToSortSeq(es, EdgeLess) IN [j \in DOMAIN s |-> [a |-> Lo(s[j]), b |-> Hi(s[j]), lt |-> lab[s[j]]]]
 NoLab(es) == [e \in es |-> ""]
 Names(n) == [1..n -> {"A", "B"}]
-MkCase(n, es, lab, names, labs, links) ==
+MkCaseB(n, es, lab, names, labs, blocks, links) ==
   [n |-> n, resid |-> [r \in 1..n |-> r],
    rattr |-> [r \in 1..n |-> IF labs[r] = "" THEN [resname |-> names[r]] ELSE [resname |-> names[r], lab |-> labs[r]]],
-   edges |-> EdgeSeq(es, lab), blocks |-> Blocks, links |-> links]
+   edges |-> EdgeSeq(es, lab), blocks |-> blocks, links |-> links]
+MkCase(n, es, lab, names, labs, links) == MkCaseB(n, es, lab, names, labs, Blocks, links)
 NoLabs(n) == [r \in 1..n |-> ""]
 \* a "G" is a residue graph with names and labels: <<n, edge set, names, edge labels, residue labels>>
 GN(nmax) == UNION { UNION { { <<n, es, nm, NoLab(es), NoLabs(n)>> : nm \in Names(n) } : es \in Graphs(n) } : n \in 1..nmax }
 AllA(g) == \A r \in 1..g[1] : g[3][r] = "A"
 Mk(g, ff) == MkCase(g[1], g[2], g[4], g[3], g[5], ff)
+\* a force field of an exported family is [blocks, links]
+MkF(g, ff) == MkCaseB(g[1], g[2], g[4], g[3], g[5], ff.blocks, ff.links)
+FFof(S) == { [blocks |-> Blocks, links |-> ls] : ls \in S }
 Plain(G, FFs) == { Mk(g, ff) : g \in G, ff \in FFs }
+PlainF(G, FFs) == { MkF(g, ff) : g \in G, ff \in FFs }
 
 (* ---- family A: the matching core (orders x residue names x pattern shapes), one link per force field *)
 Pre == { O("num", 1), O("num", 2), O("num", -1), O("gl", 1), O("gl", 2), O("gl", -1), O("star", 1), O("star", 2) }
 RN1 == { OA, AB }
 RN2 == { OA, OB, AB }
-Two == { Lk(<<Z, p>>, <<AtR(1, "a2", r1), AtR(2, x, r2)>>, <<Bond(1, 2, "0.2")>>) : p \in Pre, r1 \in RN1, r2 \in RN2, x \in {"a1", "b1"} }
+\* (second atom, its residue names): combinations that can select an atom at all, plus one that never can
+X2 == { <<"a1", OA>>, <<"a1", AB>>, <<"b1", OB>>, <<"b1", AB>>, <<"b1", OA>> }
+Two == { Lk(<<Z, p>>, <<AtR(1, "a2", r1), AtR(2, x[1], x[2])>>, <<Bond(1, 2, "0.2")>>) : p \in Pre, r1 \in RN1, x \in X2 }
 At3 == <<AtR(1, "a2", AB), AtR(2, "a1", AB), AtR(3, "a1", AB)>>
 Trip(p, q) == { Lk(<<Z, p, q>>, At3, <<Angle(1, 2, 3, "0.2")>>),                                       \* path, reference residue at the end
                 Lk(<<Z, p, q>>, At3, <<Angle(2, 1, 3, "0.2")>>),                                       \* path, reference residue in the middle
@@ -77,7 +84,7 @@ Mixed == { Lk(<<Z, O("num", 1)>>, <<AtR(1, "a1", OA), AtR(1, "a2", AB), AtR(2, "
            Lk(<<Z, O("star", 1)>>, <<AtR(1, "a2", OA), AtR(2, "a1", AB), AtR(2, "a2", OA)>>, <<Angle(1, 2, 3, "0.2")>>) }
 CatCore == Two \cup Three \cup Four \cup Mixed
 GsA(u) == GN(4)
-FFsA(u) == { <<l>> : l \in CatCore }
+FFsA(u) == FFof({ <<l>> : l \in CatCore })
 
 (* ---- family B: link features *)
 LB(p, par) == Lk(<<Z, p>>, <<AtR(1, "a2", AB), AtR(2, "a1", AB)>>, <<Bond(1, 2, par)>>)
@@ -133,7 +140,7 @@ FeatFFs == {
   << LB(P1, "0.2"), LB(ST, "0.3"), LB(GT, "0.4") >>,
   << >> }
 GsB(u) == GN(3) \cup {g \in GN(4) : g[1] = 4 /\ AllA(g)}
-FFsB(u) == FeatFFs
+FFsB(u) == FFof(FeatFFs)
 
 (* ---- family C: edge labels (linktype) *)
 Labs(es) == [es -> {"", "c"}]
@@ -149,7 +156,7 @@ TypeFFs == {
   \* three residues, one labelled and one unlabelled pattern edge
   << LkF(<<Z, GT, O("gl", 2)>>, At3, <<Angle(1, 2, 3, "0.2")>>, <<XE(2, 3, "c")>>, <<>>, <<>>) >> }
 GsC(u) == UNION { { <<g[1], g[2], g[3], lab, g[5]>> : lab \in Labs(g[2]) } : g \in {h \in GN(3) : h[1] >= 2 /\ (h[1] = 2 \/ AllA(h))} }
-FFsC(u) == TypeFFs
+FFsC(u) == FFof(TypeFFs)
 
 (* ---- family D: residue-level labels (gen_seq -label), finding F13 *)
 QSel(at) == WithSel(at, "lab", <<"q">>)
@@ -158,13 +165,55 @@ LabelFFs == {
   << Lk(<<Z, GT>>, <<QSel(AtR(1, "a2", AB)), AtR(2, "a1", AB)>>, <<Bond(1, 2, "0.2")>>) >>,
   << Lk(<<Z, ST>>, <<AtR(1, "a2", AB), QSel(AtR(2, "a1", AB))>>, <<Bond(1, 2, "0.2")>>), LB(P1, "0.3") >> }
 GsD(u) == UNION { { <<g[1], g[2], g[3], g[4], labs>> : labs \in [1..g[1] -> {"", "q"}] } : g \in {h \in GN(3) : h[1] >= 2 /\ (h[1] = 2 \/ AllA(h))} }
-FFsD(u) == LabelFFs
+FFsD(u) == FFof(LabelFFs)
+
+(* ---- family E: dangling interactions in monomer .itp files (polyply syntax) *)
+Dg(kind, idx, par) == [kind |-> kind, idx |-> idx, par |-> par]
+WithDang(b, d) == [atoms |-> b.atoms, inters |-> b.inters, dang |-> d]
+DangA == { << Dg("bonds", <<1, 2>>, "0.2") >>,                                             \* a2 +a1
+           << Dg("bonds", <<1, 2>>, "0.2"), Dg("angles", <<0, 1, 2>>, "0.3") >>,           \* + angle a1 a2 +a1
+           << Dg("bonds", <<1, 2>>, "0.2"), Dg("angles", <<1, 2, 4>>, "0.3") >>,           \* + angle a2 +a1 ++a1 (three residues)
+           << Dg("bonds", <<1, 2>>, "0.2"), Dg("bonds", <<1, 2>>, "0.3") >>,               \* two versions of one bond
+           << Dg("bonds", <<1, 2>>, "0.2"), Dg("bonds", <<1, 3>>, "0.25"), Dg("bonds", <<1, 2>>, "0.3") >>,   \* repeated, not consecutive: later link wins
+           << Dg("bonds", <<1, 2>>, "0.2"), Dg("dihedrals", <<0, 1, 2, 3>>, "0.3"), Dg("dihedrals", <<0, 1, 2, 3>>, "0.4") >>,
+           << Dg("bonds", <<1, 2>>, "0.2"), Dg("pairs", <<0, 3>>, "0.3") >>,
+           << Dg("bonds", <<2, 1>>, "0.2") >>,                                             \* written from the next residue's side
+           << Dg("bonds", <<1, 4>>, "0.2") >>,                                             \* a2 ++a1: no residue pattern of a chain has this edge
+           << >> }
+DangB == { << >>, << Dg("bonds", <<0, 1>>, "0.5") >> }                                     \* b1 +b1
+FFsE(u) == { LET bl == [A |-> WithDang(BlkA, da), B |-> WithDang(BlkB, db)] IN [blocks |-> bl, links |-> ItpLinksOf(bl.A) \o ItpLinksOf(bl.B)] : da \in DangA, db \in DangB }
+PathG(n) == { {j, j + 1} : j \in 1..(n - 1) }
+GsE(u) == { <<n, PathG(n), [r \in 1..n |-> "A"], NoLab(PathG(n)), NoLabs(n)>> : n \in 1..5 }
+           \cup { g \in GN(4) : g[2] = PathG(g[1]) }
+           \cup { g \in GN(3) : g[1] = 3 /\ AllA(g) }
+IsHomoChain(c) == /\ \A r \in Rs(c) : c.rattr[r].resname = "A"
+                  /\ { {c.edges[j].a, c.edges[j].b} : j \in DOMAIN c.edges } = PathG(c.n)
+DanglingTheorem(c, f) == (IsHomoChain(c) /\ DangContiguous(c.blocks.A)) =>
+                            { x \in f.ints : \E j \in DOMAIN x.atoms : x.atoms[j][1] # x.atoms[1][1] } = Windows(c.blocks.A, c.n)
+
+(* ---- family M (C10): force fields with and without applicable links x all residue graphs on <= 4 residues *)
+LA(p, par) == Lk(<<Z, p>>, <<AtR(1, "a2", OA), AtR(2, "a1", OA)>>, <<Bond(1, 2, par)>>)          \* only A-A pairs are linked
+MissFFs == { << >>,                                                     \* no link at all: every residue edge is missing
+             << LB(P1, "0.2") >>,                                       \* chain links; B has no atom a1/a2: pairs with B stay unlinked
+             << LB(GT, "0.2") >>,
+             << LA(ST, "0.2") >>,
+             << LB(P1, "0.2"), Lk(<<Z, ST>>, <<AtR(1, "a2", OA), AtR(2, "b1", OB)>>, <<Angle(1, 2, 1, "0.3")>>) >>,
+             << Lk(<<Z, ST>>, <<AtR(1, "a1", AB), AtR(2, "b1", OB)>>, <<Bond(1, 2, "0.2")>>), LB(GT, "0.3") >>,
+             << LkF(<<Z, GT>>, <<AtR(1, "a2", AB), AtR(2, "a1", AB)>>, <<>>, <<XE(1, 2, "")>>, <<>>, <<>>) >>,        \* an edge without any interaction
+             << Lk(<<Z, GT>>, <<AtR(1, "a2", AB), AtR(2, "a1", AB)>>, <<BondNE(1, 2, "0.2")>>) >>,                    \* a bond that makes no edge
+             << LB(GT, "0.2"), TermDel >>,                                                                           \* removal after linking
+             << Lk(<<Z, GT>>, <<AtR(1, "a2", AB), WithDel(AtR(2, "a1", AB))>>, <<Bond(1, 2, "0.2")>>) >> }              \* the linking atom itself is removed
+GsM(u) == GN(4)
+FFsM(u) == FFof(MissFFs)
 
 (* ---- small instances for I |= P and for the sensitivity runs *)
 CoreSmall == { Lk(<<Z, p>>, <<AtR(1, "a2", AB), AtR(2, x, r2)>>, <<Bond(1, 2, "0.2")>>) : p \in Pre, r2 \in RN2, x \in {"a1"} } \cup Three \cup Mixed
-CasesSmall(u) == Plain(GN(3), { <<l>> : l \in CoreSmall }) \cup Plain(GsB(u), FFsB(u)) \cup Plain(GsC(u), FFsC(u)) \cup Plain(GsD(u), FFsD(u))
-CasesTiny(u) == Plain(GN(3), { <<l>> : l \in CoreSmall }) \cup Plain(GN(3), FFsB(u)) \cup Plain(GsC(u), FFsC(u)) \cup Plain(GsD(u), FFsD(u))
-CasesSmall4(u) == Plain({g \in GN(4) : g[1] = 4 /\ AllA(g)}, { <<l>> : l \in Three \cup Four })
+CasesSmall(u) == Plain(GN(3), { <<l>> : l \in CoreSmall }) \cup PlainF(GsB(u), FFsB(u)) \cup PlainF(GsC(u), FFsC(u)) \cup PlainF(GsD(u), FFsD(u))
+CoreTiny == { Lk(<<Z, p>>, <<AtR(1, "a2", AB), AtR(2, "a1", AB)>>, <<Bond(1, 2, "0.2")>>) : p \in Pre } \cup Three \cup Mixed
+CasesTiny(u) == Plain(GN(3), { <<l>> : l \in CoreTiny }) \cup PlainF(GN(3), FFsB(u)) \cup PlainF(GsC(u), FFsC(u)) \cup PlainF(GsD(u), FFsD(u))
+\* four residues; cases whose links have at most 8 residue-level matches each (2^8 interleavings of TryMatch per link)
+CasesSmall4(u) == { c \in Plain({g \in GN(4) : g[1] = 4 /\ AllA(g)}, { <<l>> : l \in Three \cup Four }) :
+                      \A k \in DOMAIN c.links : Cardinality({ phi \in Maps(c, c.links[k]) : ResMatch(c, c.links[k], phi) }) <= 8 }
 
 (* ---- sensitivity instances: one case family per deviation in which the deviation is visible *)
 AAA == [r \in 1..3 |-> "A"]
@@ -181,6 +230,7 @@ CasesDevNonEdge(u) == One(3, Path3, AAA, << LB(P1, "0.2"), TermRep >>)
 CasesDevPattern(u) == One(2, {{1, 2}}, [r \in 1..2 |-> "A"],
                      << LkF(<<Z, P1>>, <<AtR(1, "a2", AB), AtR(2, "a1", AB)>>, <<Bond(1, 2, "0.2")>>, <<>>, <<>>, << <<PA(1, "atype", <<"X">>)>> >>) >>)
 CasesDevKeepRemoved(u) == One(3, Path3, AAA, << LB(P1, "0.2"), TermDel >>)
+CasesDevVerKey(u) == One(3, Path3, <<"B", "A", "A">>, << LB(P1, "0.2"), TermDel >>)
 CasesDevF13(u) == { MkCase(3, Path3, NoLab(Path3), AAA, [r \in 1..3 |-> "q"],
                         << Lk(<<Z, P1>>, <<QSel(AtR(1, "a2", AB)), QSel(AtR(2, "a1", AB))>>, <<Bond(1, 2, "0.2")>>) >>) }
 CasesDevDegree(u) == One(2, {{1, 2}}, [r \in 1..2 |-> "A"], << LB(P1, "0.2") >>)
@@ -195,14 +245,18 @@ MInit == /\ case \in Cases
 MSpec == MInit /\ [][FindMissing /\ UNCHANGED case]_vars
 
 (* ---- the family of this run *)
-FamGs == CASE Fam = "A" -> GsA(0) [] Fam = "B" -> GsB(0) [] Fam = "C" -> GsC(0) [] Fam = "D" -> GsD(0) [] OTHER -> {}
-FamFFs == CASE Fam = "A" -> FFsA(0) [] Fam = "B" -> FFsB(0) [] Fam = "C" -> FFsC(0) [] Fam = "D" -> FFsD(0) [] OTHER -> {}
-FamCases == CASE Fam \in {"A", "B", "C", "D"} -> {}      \* exported families are enumerated chunk by chunk, see XNext
-              [] Fam = "small" -> CasesSmall(0) [] Fam = "tiny" -> CasesTiny(0) [] Fam = "small4" -> CasesSmall4(0) [] Fam = "missing" -> CasesMissing(0)
+FamGs == CASE Fam = "A" -> GsA(0) [] Fam = "B" -> GsB(0) [] Fam = "C" -> GsC(0) [] Fam = "D" -> GsD(0) [] Fam = "E" -> GsE(0) [] Fam = "M" -> GsM(0) [] OTHER -> {}
+FamFFs == CASE Fam = "A" -> FFsA(0) [] Fam = "B" -> FFsB(0) [] Fam = "C" -> FFsC(0) [] Fam = "D" -> FFsD(0) [] Fam = "E" -> FFsE(0) [] Fam = "M" -> FFsM(0) [] OTHER -> {}
+FamCases == CASE Fam \in {"A", "B", "C", "D"} -> {}
+              [] Fam = "M" -> PlainF({g \in GsM(0) : g[1] <= 3}, FFsM(0))
+              [] Fam = "E" -> PlainF(GsE(0), FFsE(0))      \* exported families are enumerated chunk by chunk, see XNext
+              [] Fam = "small" -> CasesSmall(0) [] Fam = "tiny" -> CasesTiny(0) [] Fam = "small4" -> CasesSmall4(0) [] Fam = "missing" -> CasesMissing(0) [] Fam = "missingS" -> Plain({g \in GN(2) : TRUE}, { << >> })
               [] Fam = "devMono" -> CasesDevMono(0) [] Fam = "devOrder" -> CasesDevOrder(0) [] Fam = "devLinktype" -> CasesDevLinktype(0)
               [] Fam = "devFirstWins" -> CasesDevFirstWins(0) [] Fam = "devAmbig" -> CasesDevAmbig(0) [] Fam = "devNonEdge" -> CasesDevNonEdge(0)
               [] Fam = "devPattern" -> CasesDevPattern(0) [] Fam = "devKeepRemoved" -> CasesDevKeepRemoved(0) [] Fam = "devF13" -> CasesDevF13(0)
-              [] Fam = "devDegree" -> CasesDevDegree(0)
+              [] Fam = "devDegree" -> CasesDevDegree(0) [] Fam = "devVerKey" -> CasesDevVerKey(0)
+              [] Fam = "devAll" -> CasesDevMono(0) \cup CasesDevOrder(0) \cup CasesDevLinktype(0) \cup CasesDevFirstWins(0) \cup CasesDevAmbig(0) \cup CasesDevNonEdge(0)
+                                   \cup CasesDevPattern(0) \cup CasesDevKeepRemoved(0) \cup CasesDevVerKey(0) \cup CasesDevF13(0) \cup CasesDevDegree(0)
 
 (* ---- export for the S->I replay: one root state, one chunk state per residue graph (spread over the workers), one state per case *)
 GSeq == SetToSeq(FamGs)
@@ -211,13 +265,12 @@ XInit == case = Nil /\ st = [pc |-> "root", k |-> 0]
 XNext == \/ /\ st.pc = "root" /\ \E k \in 1..Len(GSeq) : st' = [pc |-> "chunk", k |-> k]
             /\ UNCHANGED case
          \/ /\ st.pc = "chunk"
-            /\ \E ff \in FamFFs : case' = Mk(GSeq[st.k], ff) /\ st' = St0(case')
+            /\ \E ff \in FamFFs : case' = MkF(GSeq[st.k], ff) /\ st' = St0(case')
 XSpec == XInit /\ [][XNext]_vars
 IsCase == st.pc \notin {"root", "chunk"}
 AtomSeq(S) == SetToSortSeq(S, AtLess)
 FFSeq == SetToSeq(FamFFs)
-FFIndex(ff) == CHOOSE i \in DOMAIN FFSeq : FFSeq[i] = ff
-ASSUME PrintT(<<"BLOCKS", ToJson(Blocks)>>)
+FFIndex(c) == CHOOSE i \in DOMAIN FFSeq : FFSeq[i].links = c.links /\ FFSeq[i].blocks = c.blocks
 ASSUME PrintT(<<"FFS", ToJson(FFSeq)>>)
 ExpRec(c, e) ==
   LET f == PFinalE(c, e)
@@ -228,11 +281,16 @@ ExpRec(c, e) ==
    removed |-> AtomSeq(f.removed),
    calls |-> SetToSeq(f.calls),
    missing |-> SetToSeq({SetToSortSeq(x, <) : x \in Missing(c, f.edges)}),
-   connected |-> ResConnected(c, f.edges, f.removed)]
-InputRec(c) == [n |-> c.n, resid |-> c.resid, rattr |-> c.rattr, edges |-> c.edges, ff |-> FFIndex(c.links)]
+   connected |-> ResConnected(c, f.edges, f.removed),
+   \* classification of the open finding: the interactions the molecule has if WriteBack confuses version numbers with node keys
+   verkey |-> LET d == StripLi(PIntsW(c, e.app, TRUE)) IN IF d = f.ints THEN <<>> ELSE SetToSeq(d),
+   verkeydiffers |-> StripLi(PIntsW(c, e.app, TRUE)) # f.ints]
+InputRec(c) == [n |-> c.n, resid |-> c.resid, rattr |-> c.rattr, edges |-> c.edges, ff |-> FFIndex(c)]
 \* every exported case lies in the stated domain (no ties, residue names on all link atoms); then it is printed with its expected result
 Export == IsCase => LET e == PEnd(case) IN
-             /\ InDomain(case) /\ NoTiesE(case, e)
+             /\ InDomain(case) /\ NoTiesE(case, e) /\ e.stable
+             /\ (Fam = "E" => DanglingTheorem(case, PFinalE(case, e)))
              /\ PrintT(<<"CASE", ToJson([input |-> InputRec(case), expected |-> ExpRec(case, e)])>>)
 LemmaOrder == OrderSymmetric
+LemmaTables == st.pc = "begin" => ResMatchesAgree(case)
 =============================================================================
